@@ -55,9 +55,15 @@ FX_RERAISE = os.environ.get("C22_FX_RERAISE", "1") == "1"   # proposed_fixes/C22
 FX_SLOT = os.environ.get("C22_FX_SLOT", "1") == "1"         # proposed_fixes/C22-exc_info_slot.diff
 
 HELPER = r'''
-import sys
+import sys, os
 LOG = []
 CNT = [0]
+TICKS = [0]
+def _tick():
+    # a mis-compiled function can loop forever in C; every block is instrumented, so bound the events
+    TICKS[0] += 1
+    if TICKS[0] > 5000:
+        os._exit(77)
 class E3(Exception): pass
 class E4(Exception): pass
 class E5(Exception): pass
@@ -66,6 +72,7 @@ CLS = {0: Exception, 3: E3, 4: E4, 5: E5, 9: E9}
 def reset():
     del LOG[:]
     CNT[0] = 0
+    TICKS[0] = 0
 def _new(c):
     e = CLS[c]()
     e.serial = CNT[0]
@@ -79,20 +86,24 @@ def D(e, depth=4):
     return "%s:%s{c=%s;x=%s;s=%d}" % (type(e).__name__, getattr(e, "serial", "i"), D(e.__cause__, depth - 1),
                                      D(e.__context__, depth - 1), 1 if e.__suppress_context__ else 0)
 def _b(n):
+    _tick()
     LOG.append("B%d" % n)
 PLAN = {}
 def _h(k):
+    _tick()
     c = PLAN.get(k)
     if c is not None:
         raise _new(c)
 def _t():
     return True
 def _p():
+    _tick()
     LOG.append("P[%s]" % D(sys.exc_info()[1]))
 class _cm(object):
     def __init__(self, k, mode, c=0):
         self.k, self.mode, self.c = k, mode, c
     def __enter__(self):
+        _tick()
         LOG.append("N%d" % self.k)
     def __exit__(self, t, v, tb):
         LOG.append("X%d[%s|%s]" % (self.k, D(v), D(sys.exc_info()[1])))
@@ -1057,7 +1068,7 @@ def run(ctx):
         tplans.append(pl)
         for which in ("cy", "py"):
             cases.append(["c22run.run_plans", [mod, fn, which, [0, 1, 2], [[list(x) for x in q] for q in pl]]])
-    res = cybuild.call_cases(ctx.workdir, cases, setup="import c22run", alarm=60)
+    res = cybuild.call_cases(ctx.workdir, cases, setup="import c22run", alarm=60, timeout=600)
     lap("run")
     runs = []                      # (cy, py) per meta entry
     for i in range(len(meta)):
@@ -1073,7 +1084,7 @@ def run(ctx):
             # the compiled function killed the worker (or raised out of the harness) under some plan:
             # run the plans one by one to find it
             one = cybuild.call_cases(ctx.workdir, [["c22run.run_plans", [mod, fn, "cy", [c], [[list(x) for x in q]]]]
-                                                   for q in pl for c in (0, 1, 2)], setup="import c22run", alarm=10)
+                                                   for q in pl for c in (0, 1, 2)], setup="import c22run", alarm=10, timeout=300)
             rcl = [(r["r"][0] if "r" in r else r) for r in one]
         else:
             rcl = rc["r"]
